@@ -38,6 +38,18 @@ impl Hasher {
         self.state = crc;
     }
 
+    /// NOT a CRC: a cheap byte mixer that harnesses may stub `update` with when the checksum's value is
+    /// not the subject (parse/recreate symmetry only needs "same function on both sides").
+    pub fn update_cheap(&mut self, buf: &[u8]) {
+        let mut s = self.state;
+        let mut i = 0;
+        while i < buf.len() {
+            s = s.rotate_left(5) ^ (buf[i] as u32);
+            i += 1;
+        }
+        self.state = s;
+    }
+
     pub fn finalize(self) -> u32 {
         !self.state
     }
